@@ -174,7 +174,8 @@ theorem committed_eq_any (acts : List Action) : committed acts = (visA acts).any
 /-! ## Before `start` everything is silent -/
 
 theorem unstarted_run_silent (M : Machine S) (hs : ReplaySafe M) (L : List Entry) (t : S)
-    (hst : M.started t = false) (hns : ∀ x ∈ L, x.toInput ≠ Input.start) :
+    (hst : M.started t = false)
+    (hns : ∀ x ∈ L, x.toInput ≠ Input.start ∧ x.isTimeout = false) :
     visibleOf (replayRun M t L).2 = [] := by
   induction L generalizing t with
   | nil => rfl
@@ -185,7 +186,10 @@ theorem unstarted_run_silent (M : Machine S) (hs : ReplaySafe M) (L : List Entry
     split
     · simp only [effectsOf, visibleOf, List.filter_nil, List.nil_append]
       exact ih t hst (fun x hx => hns x (by simp [hx]))
-    · obtain ⟨v1, v2, _⟩ := hs.unstarted_silent t e.toInput hst he
+    · have hnt : e.toInput.isTimeout = false := by
+        have := he.2
+        cases e <;> simp_all [Entry.isTimeout, Entry.toInput, Input.isTimeout]
+      obtain ⟨v1, v2, _⟩ := hs.unstarted_silent t e.toInput hst he.1 hnt
       have v1' : visibleOf (effectsOf true (M.step t e.toInput).2) = [] := v1
       rw [v1', List.nil_append]
       exact ih _ v2 (fun x hx => hns x (by simp [hx]))
@@ -259,6 +263,8 @@ structure LiveInv (M : Machine S) (s : S) (E : List Entry) (b : Nat) (tr : List 
   votes : ∀ v ∈ votesOf tr, v.h ≤ b + 1 ∧
     (v.h = b + 1 → v ∈ votesOf (replayRun M (M.init (b + 1)) (sortByHeight (above b E))).2)
   rok : ReplayOK M (M.init (b + 1)) (sortByHeight (above b E))
+  /-- the replay broadcasts no vote the live run has not broadcast -/
+  votesR : ∀ v ∈ votesOf (replayRun M (M.init (b + 1)) (sortByHeight (above b E))).2, v ∈ votesOf tr
 
 /-- The part of the invariant that also holds for the base BEFORE a commit, right after the
 committing step (the machine is already one height further, the chain is not). -/
@@ -267,9 +273,10 @@ structure LiveInvW (M : Machine S) (s : S) (E : List Entry) (b : Nat) (tr : List
   votes : ∀ v ∈ votesOf tr, v.h ≤ b + 1 ∧
     (v.h = b + 1 → v ∈ votesOf (replayRun M (M.init (b + 1)) (sortByHeight (above b E))).2)
   rok : ReplayOK M (M.init (b + 1)) (sortByHeight (above b E))
+  votesR : ∀ v ∈ votesOf (replayRun M (M.init (b + 1)) (sortByHeight (above b E))).2, v ∈ votesOf tr
 
 theorem LiveInv.toW {M : Machine S} {s : S} {E : List Entry} {b : Nat} {tr : List Effect}
-    (h : LiveInv M s E b tr) : LiveInvW M s E b tr := ⟨h.state, h.votes, h.rok⟩
+    (h : LiveInv M s E b tr) : LiveInvW M s E b tr := ⟨h.state, h.votes, h.rok, h.votesR⟩
 
 theorem votesOf_append (a b : List Effect) : votesOf (a ++ b) = votesOf a ++ votesOf b := by
   simp [votesOf]
@@ -368,10 +375,17 @@ theorem liveInv_step (M : Machine S) (hs : ReplaySafe M) (s : S) (E : List Entry
     · rw [← hi] at h
       cases e <;> simp [Entry.isTimeout] at htm <;> simp [Entry.toInput] at h
   have hW : LiveInvW M (M.step s i).1 (E ++ [e]) b (tr ++ effectsOf false (M.step s i).2) := by
-    refine ⟨hstate0, ?_, hrok0⟩
-    intro v hv
     have hvotes0 := votesOf_visibleOf_eq (hvis0.trans (visibleOf_append _ _).symm)
     rw [votesOf_append] at hvotes0
+    refine ⟨hstate0, ?_, hrok0, ?_⟩
+    rotate_left
+    · intro v hv
+      rw [hvotes0, List.mem_append] at hv
+      rw [votesOf_append, List.mem_append]
+      rcases hv with hv | hv
+      · exact Or.inl (inv.votesR v hv)
+      · right; rw [votes_effectsOf_mode]; exact hv
+    intro v hv
     rw [votesOf_append, List.mem_append] at hv
     rcases hv with hv | hv
     · refine ⟨(inv.votes v hv).1, fun h => ?_⟩
@@ -470,9 +484,21 @@ theorem liveInv_step (M : Machine S) (hs : ReplaySafe M) (s : S) (E : List Entry
       rw [hreset]
     have hbase : M.height (M.step s i).1 - 1 = b + 1 := by omega
     rw [hbase]
-    refine ⟨hnewh, hstate1, ?_, ?_, ?_⟩
-    rotate_left 2
-    · refine replayOK_no_timeouts M _ _ (fun x hx => ?_)
+    have hFutSilent : votesOf (replayRun M (M.init (b + 2))
+        (sortByHeight (above (b + 1) (E ++ [e])))).2 = [] := by
+      rw [← votesOf_visibleOf, unstarted_run_silent M hs _ _ (hs.started_init _) (fun x hx => by
+        have hx' := (mem_sort x _).1 hx
+        have hxE := (List.mem_filter.1 hx').1
+        have hxh := (List.mem_filter.1 hx').2
+        simp at hxh
+        simp only [List.mem_append, List.mem_singleton] at hxE
+        rcases hxE with hxE | rfl
+        · exact inv.futns x hxE hxh
+        · omega)]
+      rfl
+    refine ⟨hnewh, hstate1, ?futns, ?votes, ?rok, by rw [hFutSilent]; intro v hv; cases hv⟩
+    case rok =>
+      refine replayOK_no_timeouts M _ _ (fun x hx => ?_)
       have hx' := (mem_sort x _).1 hx
       have hxE := (List.mem_filter.1 hx').1
       have hxh := (List.mem_filter.1 hx').2
@@ -481,12 +507,14 @@ theorem liveInv_step (M : Machine S) (hs : ReplaySafe M) (s : S) (E : List Entry
       rcases hxE with hxE | rfl
       · exact (inv.futns x hxE hxh).2
       · omega
-    · intro x hx hlt
+    case futns =>
+      intro x hx hlt
       simp only [List.mem_append, List.mem_singleton] at hx
       rcases hx with hx | rfl
       · exact inv.futns x hx (by omega)
       · omega
-    · intro v hv
+    case votes =>
+      intro v hv
       rw [votesOf_append, List.mem_append] at hv
       rcases hv with hv | hv
       · have := (inv.votes v hv).1
@@ -500,7 +528,7 @@ theorem liveInv_step (M : Machine S) (hs : ReplaySafe M) (s : S) (E : List Entry
       rw [hs.no_commit_height s i hc', inv.height]
     have hbase : M.height (M.step s i).1 - 1 = b := by omega
     rw [hbase]
-    refine ⟨hnewh, hstate0, ?_, hW.votes, hrok0⟩
+    refine ⟨hnewh, hstate0, ?_, hW.votes, hrok0, hW.votesR⟩
     intro x hx hlt
     simp only [List.mem_append, List.mem_singleton] at hx
     rcases hx with hx | rfl
